@@ -83,12 +83,20 @@ class PathWorld:
         t = Tdf.new(seed_path)
         with t.allow_write() as f:
             f.add_block(blocks.make_block(16, 2, 77, 1500000000, 1500000100))
+            if self.rng.random() < 0.5:
+                # a file that ends in several pages of zero bytes (a flat signal)
+                from basictdf.tdfEMG import EMG, EMGTrack
+                import numpy as np
+                flat = EMG(1000, 5000)
+                flat.addSignal(EMGTrack("flat", np.zeros(5000, "<f4")))
+                f.add_block(flat)
         tdf_bytes = open(seed_path, "rb").read()
         os.unlink(seed_path)
         junk = b"this is not a TDF file " + bytes(self.rng.randrange(256) for _ in range(50))
         if self.rng.random() < 0.5:
             # a TDF file whose signature is damaged: everything behind it still parses
-            junk = bytes([tdf_bytes[0] ^ 0x40]) + tdf_bytes[1:]
+            k = [0, 15, 9, 12][self.rng.randrange(4)]        # first, last, or a middle byte of the 16
+            junk = tdf_bytes[:k] + bytes([tdf_bytes[k] ^ 0x40]) + tdf_bytes[k + 1:]
         for i, k in enumerate(kinds, start=1):
             p = self.paths[i]
             if os.path.exists(p):
